@@ -74,7 +74,19 @@ def KNOWN_D1(sub, case, failure):
     routine on the same input satisfies the same oracle clause.  A fault in the formulas themselves fails op-by-op as
     well and is therefore never covered."""
     d = failure.data
-    return bool(d.get('relgap') is not None and d['relgap'] < 1e-4 and d.get('fusion_only') is True)
+    return bool(d.get('relgap') is not None and d.get('fusion_only') is True and (d['relgap'] < 1e-4 or d.get('tie_only') is True))
+
+
+_PERT = onp.array([[1.0, 2.0, -1.0], [2.0, -3.0, 1.0], [-1.0, 1.0, 2.0]])
+
+
+def perturbed(A):
+    """Three symmetric perturbations of relative size 1e-13: the second manifestation of D1 is an exact tie in one of the
+    pivot selections of eigen_sym33_non_unit (structured orientations); it disappears under any such perturbation, whereas a
+    formula fault does not (and fails op-by-op as well)."""
+    A = onp.asarray(A, dtype=float)
+    s = onp.abs(A).max() * 1e-13
+    return [A + k * s * _PERT for k in (1.0, -1.7, 2.3)]
 
 
 KNOWN_MATCH = {'D1': KNOWN_D1}
@@ -131,11 +143,20 @@ def check_eig(case):
         for mode, lam, V in (('single', onp.asarray(l1), onp.asarray(V1)), ('batched', lamB[i], VB[i])):
             f = _check_eig_one(As[i], lam, V, mode, t['cls'])
             if f is not None:
-                if mode == 'batched' and f.data.get('relgap', 1) < 1e-4:
+                if mode == 'batched':
                     with J['jax'].disable_jit():
                         le, Ve = J['T'].eigen_sym33_unit(np.array(As[i]))
                     fe = _check_eig_one(As[i], onp.asarray(le), onp.asarray(Ve), 'eager', t['cls'])
                     f.data['fusion_only'] = fe is None or fe.clause != f.clause
+                    if f.data.get('relgap', 1) >= 1e-4 and f.data['fusion_only']:
+                        ok = True
+                        for Ap in perturbed(As[i]):
+                            Asp = As.copy()
+                            Asp[i] = Ap
+                            lp, Vp = J['eigB'](np.array(Asp))
+                            fp = _check_eig_one(Ap, onp.asarray(lp)[i], onp.asarray(Vp)[i], 'batched', t['cls'])
+                            ok = ok and (fp is None or fp.clause != f.clause)
+                        f.data['tie_only'] = ok
                 fails.append(f)
         classes.add(t['cls'])
         classes.add('orient-' + t['orient'])
@@ -238,11 +259,24 @@ def check_funcs(case):
         o = _funcs_outputs(mode, As, Bs, AsR, m)
         for i, t in enumerate(case['tensors']):
             fs = _funcs_oracle(i, o, As[i], Bs[i], Qs[i], m, mode, t['cls'])
-            if fs and min(f.data['relgap'] for f in fs) < 1e-4:
+            if fs:
                 oe = _funcs_outputs('eager', As[i:i + 1], Bs[i:i + 1], AsR[i:i + 1], m)
                 eager = set(f.clause for f in _funcs_oracle(0, oe, As[i], Bs[i], Qs[i], m, 'eager', t['cls']))
                 for f in fs:
                     f.data['fusion_only'] = f.clause not in eager
+                if min(f.data['relgap'] for f in fs) >= 1e-4 and not eager:
+                    still = set()
+                    for Ap in perturbed(As[i]):
+                        Asp = As.copy()
+                        Asp[i] = Ap
+                        Bsp = onp.array([(a / onp.abs(onp.linalg.eigvalsh(a)).max()) * case['expscale'] * 3.0 - 1.5 * case['expscale'] * onp.eye(3)
+                                         for a in Asp])
+                        AsRp = onp.einsum('nij,njk,nlk->nil', Qs, Asp, Qs)
+                        AsRp = 0.5 * (AsRp + onp.transpose(AsRp, (0, 2, 1)))
+                        op = _funcs_outputs(mode, Asp, Bsp, AsRp, m)
+                        still |= set(f.clause for f in _funcs_oracle(i, op, Asp[i], Bsp[i], Qs[i], m, mode, t['cls']))
+                    for f in fs:
+                        f.data['tie_only'] = f.clause not in still
             fails += fs
             if mode == 'single':
                 classes.add(t['cls'])
@@ -347,10 +381,17 @@ def check_jvp(case):
         for mode in ('single', 'batched'):
             f = _jvp_oracle(outs[mode][i], ref, mode, g, As[i], Es[i], t['cls'], fname, m)
             if f is not None:
-                if g < 1e-4:
-                    oe = _run('eager', 'd' + fname, As[i:i + 1], Es[i:i + 1], *args)[0]
-                    fe = _jvp_oracle(oe, ref, 'eager', g, As[i], Es[i], t['cls'], fname, m)
-                    f.data['fusion_only'] = fe is None
+                oe = _run('eager', 'd' + fname, As[i:i + 1], Es[i:i + 1], *args)[0]
+                fe = _jvp_oracle(oe, ref, 'eager', g, As[i], Es[i], t['cls'], fname, m)
+                f.data['fusion_only'] = fe is None
+                if g >= 1e-4 and fe is None:
+                    ok = True
+                    for Ap in perturbed(As[i]):
+                        Asp = As.copy()
+                        Asp[i] = Ap
+                        op = _run(mode, 'd' + fname, Asp, Es, *args)[i]
+                        ok = ok and _jvp_oracle(op, frechet_ref(Ap, Es[i], fname, m), mode, g, Ap, Es[i], t['cls'], fname, m) is None
+                    f.data['tie_only'] = ok
                 fails.append(f)
         classes.add(fname + ':' + t['cls'])
         if is_nontrivial(As[i]):
